@@ -388,7 +388,7 @@ def rule_vocab(c: Ctx) -> RuleResult:
               f"tag {U(e) if e is not None else '?'}", "discharged" if ok else "violation",
               "tag is a string literal / 'h' + str(int in 1..6)" if ok else why_bad)
     # stray stores to .tag outside the groups above
-    seen_groups = {id(v) for ts in token_sites(c) for v in ts.stores.values()}
+    seen_groups = {id(v) for ts in token_sites(c) for v in ts.stores.values()} | {i for ts in token_sites(c) for i in ts.orig_ids}
     for f in c.p.all_funcs():
         sc = c.tf.scope(f)
         for n in own_nodes(f.node):
